@@ -23,7 +23,7 @@ TRUSTED = [
     "model: coq/Model/MessageM.v (Renderer, Message.to_wire, Rdataset.to_wire, _WireReader, find_rrset index, "
     "UpdateMessage._parse_rr_header, rcode/opcode packing) on top of coq/Model/NameM.v (tw_loop, ctable, relativize)",
     "RDATA is modelled as pieces (opaque octets / compressible name / non-compressible name); readers for "
-    "A NS CNAME SOA PTR MX TXT AAAA SRV RRSIG OPT TSIG, SPF NINFO AVC RESINFO WALLET AFSDB RT RP SSHFP TLSA SMIMEA CERT DNSKEY CDNSKEY OPENPGPKEY EUI48 EUI64 L32 L64 NID HINFO X25 NSEC3PARAM URI KEY DS DLV CDS ZONEMD CAA CSYNC NSEC3 DNAME NSEC BRID HHIT LP TKEY (with the constructors' content checks: digest lengths, reserved values, alphanumeric tag, window order) (any class), KX PX DHCID NSAP NSAP-PTR WKS NAPTR (class IN) and generic types; other per-type codecs are C02's",
+    "A NS CNAME SOA PTR MX TXT AAAA SRV RRSIG SIG OPT TSIG, SPF NINFO AVC RESINFO WALLET AFSDB RT RP SSHFP TLSA SMIMEA CERT DNSKEY CDNSKEY OPENPGPKEY EUI48 EUI64 L32 L64 NID HINFO X25 NSEC3PARAM URI KEY DS DLV CDS ZONEMD CAA CSYNC NSEC3 DNAME NSEC BRID HHIT LP TKEY (with the constructors' content checks: digest lengths, reserved values, alphanumeric tag, window order) (any class), KX PX DHCID NSAP NSAP-PTR WKS NAPTR (class IN) and generic types; other per-type codecs are C02's",
     "harness/msggen.py: builds implementation objects through the class constructors and converts parsed "
     "messages back through attribute access (never through to_wire/from_wire of the code under test)",
 ]
